@@ -674,6 +674,54 @@ func checkOptionalMessageDerefs(p *core.Prog, r *core.Report) {
 				}
 				continue
 			}
+			// not guarded here: a helper extracted from a guarded block is fine when EVERY call site of the function lies
+			// behind a nil test of that field in its caller
+			if node := cg.Nodes[fn]; node != nil && len(node.In) > 0 {
+				allGuarded := true
+				for _, in := range node.In {
+					caller := in.Caller.Func
+					if in.Site == nil || caller == nil || caller.Blocks == nil {
+						allGuarded = false
+						break
+					}
+					var cNonNil []core.Edge
+					core.Instrs(caller, func(x ssa.Instruction) {
+						ifi, ok := x.(*ssa.If)
+						if !ok {
+							return
+						}
+						c, neg := core.StripNot(ifi.Cond)
+						bo, ok := c.(*ssa.BinOp)
+						if !ok || (bo.Op != token.EQL && bo.Op != token.NEQ) {
+							return
+						}
+						if k, ok := bo.Y.(*ssa.Const); !ok || !k.IsNil() {
+							return
+						}
+						if f, _ := core.LoadedField(bo.X); f != s.f {
+							return
+						}
+						idx := 0
+						if (bo.Op == token.EQL) != neg {
+							idx = 1
+						}
+						cNonNil = append(cNonNil, core.Edge{From: ifi.Block(), Idx: idx})
+					})
+					qc := core.PathQuery{Fn: caller, CutEdge: func(e core.Edge) bool { return containsEdge(cNonNil, e) }}
+					if _, reach := qc.CanReach(nil, func(x ssa.Instruction) bool { return x == in.Site.(ssa.Instruction) }); reach || len(cNonNil) == 0 {
+						allGuarded = false
+						break
+					}
+				}
+				if allGuarded {
+					if !seen[key] {
+						n++
+						seen[key] = true
+						r.Pass("C17.R1", "optional-message/"+key, "the optional message field is dereferenced in a helper whose every call site lies behind a nil test of that field")
+					}
+					continue
+				}
+			}
 			if why, ok := allow[key]; ok {
 				if !seen[key] {
 					n++
